@@ -159,7 +159,10 @@ def den(e, sc: dict):
             if b > 256 or (abs(a).bit_length() * b > 3000):
                 raise TooBig
             return a**b
-        # the code computes int(a**b) through a float: truncation of the real value
+        # the code computes int(a**b) through a float: truncation of the real value; converting a huge base or
+        # exponent to float raises OverflowError (near 2**1024: left to the resource bound)
+        if abs(a) >= 2**1000 or abs(b) >= 2**1000:
+            raise TooBig
         if a == 0:
             raise Undefined("ZeroDivisionError")
         if a == 1:
